@@ -320,15 +320,15 @@ Lemma attr_readback m p a v ns l A inh :
   pfx_wf p = true -> readback m A (opt_default [] p, a, v) ->
   delb_attr (PTag ns l (A ++ inh)) (attr_ns m p) a = Some v.
 Proof.
-  intros Hw (v' & Hg & ->). unfold key_of in Hg. cbn [fst snd] in Hg.
-  unfold delb_attr. cbn [payload_attrs]. unfold attr_ns.
-  destruct p as [q|]; cbn [opt_default null] in *.
-  - destruct q as [|c q]; [discriminate Hw|]. cbn [null] in Hg.
-    set (N := opt_default [] (ns_get m (c :: q))) in *.
-    pose proof (get_attr_app_some _ _ _ inh _ Hg) as Hg'. rewrite Hg'. rewrite andb_false_r, orb_false_r.
-    destruct (null N) eqn:En; [|rewrite Hg'; reflexivity].
-    destruct N; [|discriminate]. rewrite Hg'. reflexivity.
-  - cbn [orb]. rewrite (get_attr_app_some _ _ _ inh _ Hg). reflexivity.
+  intros Hw (v' & Hg & Ev). cbn [snd] in Ev. subst v'. unfold key_of in Hg. cbn [fst snd] in Hg.
+  assert (Hg' : get_attr (attr_ns m p) a (A ++ inh) = Some v).
+  { apply get_attr_app_some. unfold attr_ns. destruct p as [q|]; cbn [opt_default null] in *; [|exact Hg].
+    destruct q as [|c q]; [discriminate Hw|exact Hg]. }
+  unfold delb_attr. cbn [payload_attrs]. set (N := attr_ns m p) in *. clearbody N.
+  destruct (in_scope_default (PTag ns l (A ++ inh))) as [d|]; [|exact Hg'].
+  destruct N as [|x N']; cbn [null negb].
+  - rewrite Hg'. cbn [negb andb]. rewrite andb_false_r. exact Hg'.
+  - rewrite Hg'. rewrite orb_true_r. exact Hg'.
 Qed.
 
 Lemma pred_true m ns l A inh e : loc_expr e = true -> attr_pfx_wf e = true ->
